@@ -57,21 +57,28 @@ Theorem C13_enc_partition_independent_lzma1 : forall (PS : Type) (parse : PS -> 
 Proof. exact enc_partition_independent_lzma1. Qed.
 Print Assumptions C13_enc_partition_independent_lzma1.
 
-(* LZMA2Writer / XZWriter without chunk_size / block_size and without flush() calls: PARTIAL.
-   Proved for every history, parser and range-coder oracle: the run is safe and exact
-   (C13_lzma2_run_exact_partial: no panic, every byte in exactly one chunk) and every steady-phase
-   consultation is independent of the data supplied beyond the look-ahead (C13_lookahead_clamped;
-   the LZMA2 write loop stays in the steady phase: l2_write_loop_spec keeps [phi]).  NOT proved:
-   the composition into "same consultations for every partition" — the data-only machine of
-   enc_partition_independent_lzma1 has not been threaded through the chunk loop (write_chunk's
-   reset of the read-ahead and the range-coder oracle).  Full statement, for the record:
-     forall parse chunkc body body' (no flush, no finish inside, chunk = None),
-       ops_total body = ops_total body' ->
-       l2_run (body ++ [OpFinish]) and l2_run (body' ++ [OpFinish]) give the same symbol lengths,
-       chunk events and final oracle state.
-   On the real code this part rests on the correspondence run (bytes and symbol traces identical
-   across partitions for LZMA2 and XZ). *)
-Theorem C13_lzma2_run_exact_partial : forall (PS : Type) (parse : PS -> Z -> Z -> strat PS) (chunkc : PS -> Z -> Z * PS) (ps0 : PS)
+(* enc_partition_independent for LZMA2Writer without chunk_size (XZWriter without block size
+   forwards to one LZMA2Writer) and without flush() calls: two partitions of the same amount of
+   data lead every parser strategy AND every range-coder oracle through the same consultations
+   and the same chunk decisions: same symbol lengths, same LZMA / uncompressed chunks with the
+   same sizes, same final oracle state.  With Codec/LzmaWriters.v ([lzma2_write]: the bytes are a
+   function of options, data and this event sequence) the compressed bytes are equal. *)
+Theorem C13_enc_partition_independent_lzma2 : forall (PS : Type) (parse : PS -> Z -> Z -> strat PS) (chunkc : PS -> Z -> Z * PS) (ps0 : PS)
+    normal bt4 dict nice preset body body' s0 s1 res s1' res',
+  opts_ok dict nice ->
+  (match preset with Some plen => 0 <= plen | None => True end) ->
+  ops_ok body -> ops_ok body' -> no_finish body -> no_finish body' -> no_flush body -> no_flush body' ->
+  ops_total body = ops_total body' -> ops_total body <= 4611686018427387904 ->
+  l2_new_repaired PS normal bt4 dict nice preset None ps0 = Ok s0 ->
+  l2_run PS parse chunkc s0 (body ++ [OpFinish]) [] = Ok (s1, res) ->
+  l2_run PS parse chunkc s0 (body' ++ [OpFinish]) [] = Ok (s1', res') ->
+  rsyms (l2_tr _ s1) = rsyms (l2_tr _ s1') /\ l2_ps _ s1 = l2_ps _ s1'.
+Proof. exact enc_partition_independent_lzma2. Qed.
+Print Assumptions C13_enc_partition_independent_lzma2.
+
+(* The runs the two theorems speak about exist and are safe: for every history, parser and
+   oracle the LZMA2 run ends Ok (or with a contract violation of the oracle), never in a panic. *)
+Theorem C13_lzma2_run_exact : forall (PS : Type) (parse : PS -> Z -> Z -> strat PS) (chunkc : PS -> Z -> Z * PS) (ps0 : PS)
     normal bt4 dict nice preset chunk ops,
   opts_ok dict nice ->
   (match preset with Some plen => 0 <= plen | None => True end) ->
@@ -83,7 +90,7 @@ Theorem C13_lzma2_run_exact_partial : forall (PS : Type) (parse : PS -> Z -> Z -
           res = rs /\ sum_fill (l2_tr _ s1) = c /\
           (fin = true -> sum_chunk (l2_tr _ s1) = c /\ sum_sym (l2_tr _ s1) + sum_abs (l2_tr _ s1) = c)).
 Proof. exact lzma2_run_exact. Qed.
-Print Assumptions C13_lzma2_run_exact_partial.
+Print Assumptions C13_lzma2_run_exact.
 
 (* history_kept: window moves are multiples of 64 and keep keep_size_before bytes of history:
    buffer positions and logical positions agree modulo 64 and the dictionary stays reachable. *)
@@ -104,6 +111,19 @@ Example C13_example :
   | Ok s0 =>
       match l1_run Z parse s0 [OpWrite 300; OpFinish] [], l1_run Z parse s0 [OpWrite 1; OpWrite 0; OpFlush; OpWrite 299; OpFinish] [] with
       | Ok (s1, _), Ok (s1', _) => rsyms (l1_tr _ s1) = rsyms (l1_tr _ s1') /\ l1_ps _ s1 = 299 /\ l1_ps _ s1' = 299
+      | _, _ => False
+      end
+  | _ => False
+  end.
+Proof. vm_compute. repeat split; reflexivity. Qed.
+
+Example C13_example_lzma2 :
+  let parse := fun (ps : Z) (_ _ : Z) => SMove (fun _ => SEmit 1 false (ps + 1)) in
+  let chunkc := fun (ps : Z) (u : Z) => (u + 5, ps + 1000) in
+  match l2_new_repaired Z false false 4096 32 None None 0 with
+  | Ok s0 =>
+      match l2_run Z parse chunkc s0 [OpWrite 300; OpFinish] [], l2_run Z parse chunkc s0 [OpWrite 1; OpWrite 0; OpWrite 299; OpFinish] [] with
+      | Ok (s1, _), Ok (s1', _) => rsyms (l2_tr _ s1) = rsyms (l2_tr _ s1') /\ l2_ps _ s1 = 1299 /\ l2_ps _ s1' = 1299
       | _, _ => False
       end
   | _ => False
